@@ -206,8 +206,54 @@ def layouts(rng, n):
     return out
 
 
+def _check_several_indexed(seed, i):
+    """several indexed-repeat() calls in one expression: the references in the index positions of EVERY call, between the calls and after
+    the last one denote nodes of the current repeat instance (relative), the first two arguments of every call stay absolute"""
+    rng = rng_for(seed, PID, "several-indexed", i)
+    n = rng.choice([2, 2, 3])
+    depth2 = rng.random() < 0.4
+    calls = []
+    for _ in range(n):
+        idxarg = rng.choice(["${idx}", "1", "position(..)", "${idx} + 1"])
+        calls.append(f"indexed-repeat(${{a}}, ${{r}}, {idxarg})")
+    glue = rng.choice([" + ", ", "])
+    pieces = []
+    for k, c in enumerate(calls):
+        if rng.random() < 0.5:
+            pieces.append("${idx}")
+        pieces.append(c)
+    if rng.random() < 0.7:
+        pieces.append("${idx}")
+    expr = glue.join(pieces)
+    if glue == ", ":
+        expr = f"concat({expr})"
+    survey = [{"type": "begin repeat", "name": "r", "label": "R"}, {"type": "text", "name": "a", "label": "A"}, {"type": "integer", "name": "idx", "label": "I"},
+              {"type": "calculate", "name": "c", "calculation": expr}, {"type": "end repeat"}]
+    if depth2:
+        survey = [{"type": "begin group", "name": "g", "label": "G"}, *survey, {"type": "end group"}]
+    form = {"survey": survey}
+    st, r = xf.convert_form(forms.as_dict(form))
+    if st != "ok":
+        return {"i": i, "skip": "rejected: " + str(r)[:80]} if st == "pyxerr" else {"i": i, "skip": "crash (C17)"}
+    root = xf.lparse(r.xform)
+    base = "/data/g/r" if depth2 else "/data/r"
+    val = ro.find_attr(root, base + "/c", "calculation")
+    if val is None:
+        return {"i": i, "skip": "cell calculation not located"}
+    if "${" in val:
+        return {"i": i, "form": form, "what": f"a ${{...}} token survives: {val!r}"}
+    n_idx = expr.count("${idx}")
+    if val.count("../idx") != n_idx or (base + "/idx") in val:
+        return {"i": i, "form": form, "what": f"calculation with {n} indexed-repeat() calls: {n_idx} reference(s) to ${{idx}} must be relative (../idx); got {val!r}"}
+    if val.count(f" {base}/a ") != n or val.count(f" {base} ,") + val.count(f" {base} )") + val.count(f" {base}  ,") < n:
+        return {"i": i, "form": form, "what": f"calculation with {n} indexed-repeat() calls: the first two arguments of every call must be absolute; got {val!r}"}
+    return {"i": i, "ok": True, "key": ("calculation", "several-indexed", n, n_idx), "rel": True}
+
+
 def _check(args):
     seed, i = args
+    if i % 12 == 7:
+        return _check_several_indexed(seed, i)
     rng = rng_for(seed, PID, "oracle", i)
     tree = layouts(rng, 1)[0]
     force_indexed = i % 12 == 5
